@@ -171,7 +171,7 @@ def run_impl(cases, repo, assertions=False, timeout=3000):
                 pass
 
 
-def audit(prop_id, theorems):
+def audit(prop_id, theorems, modules=None):
     """`theorems`: list of fully qualified names. Returns dict name -> list of axioms, or raises.
     Cached on the hash of all Lean sources."""
     ensure_dirs()
@@ -184,7 +184,8 @@ def audit(prop_id, theorems):
                 return c["result"], c["log"]
         except Exception:
             pass
-    src = ["import Lean", "import Anytree.Props.%s" % prop_id, "open Lean Elab Command", ""]
+    modules = modules or ["Anytree.Props.%s" % prop_id]
+    src = ["import Lean"] + ["import %s" % m for m in modules] + ["open Lean Elab Command", ""]
     items = ", ".join("``%s" % n for n in theorems)
     src.append("#eval show CommandElabM Unit from do")
     src.append("  for n in [%s] do" % items)
